@@ -621,10 +621,11 @@ class Key:
             )
         elif sexp[1][0] == b"rsa-pkcs1":
             assert len(kd) == 8, len(kd)
-            if kd[b"p"] > kd[b"q"]:  # Make p smaller than q
-                kd[b"p"], kd[b"q"] = kd[b"q"], kd[b"p"]
+            # _toString_LSH stores our q as LSH's p and our p as LSH's q:
+            # undo exactly that, whatever the relative size of the primes,
+            # so that the key read back equals the key written.
             return cls._fromRSAComponents(
-                n=kd[b"n"], e=kd[b"e"], d=kd[b"d"], p=kd[b"p"], q=kd[b"q"]
+                n=kd[b"n"], e=kd[b"e"], d=kd[b"d"], p=kd[b"q"], q=kd[b"p"]
             )
 
         else:
